@@ -283,6 +283,13 @@ FIX["hetero"] = lambda: topology(N("Machine", 0, [
     Pkg(1, [Core(1, [PU(2), PU(3)])], mem=[NUMA(2, mem=1 << 28, subtype="HBM")]),
 ], mem=[NUMA(1, mem=1 << 32, subtype="NVM")]))
 
+# 5e. one level of two Groups, the FIRST mergeable and the second dont_merge, two cores each: a restrict that leaves one
+# core per Group makes the level a candidate for merging, which the dont_merge Group (wherever it is in the level) forbids
+FIX["groups2"] = lambda: topology(N("Machine", 0, [
+    Pkg(0, [Group([Core(0, [PU(0)]), Core(1, [PU(1)])], kind=0),
+            Group([Core(2, [PU(2)]), Core(3, [PU(3)])], kind=0, dont_merge=1)], mem=[NUMA(0)]),
+]))
+
 # 6. I/O tree: host bridge > PCI bridge > PCI devices > OS devices of every type combination
 def _io():
     devs = []
